@@ -458,7 +458,7 @@ func ringSweep(r *rep.Run, policy string, nx int) {
 		msg := message.RpcMessage{ID: 1, Type: message.GettyRequestTypeRequestSync, Codec: byte(codec.CodecTypeSeata), Body: body(x)}
 		done := make(chan getty.Session, 1)
 		go func() { done <- sgetty.VerifSelectSession(msg) }()
-		quiet.Spin(func() bool { return len(done) > 0 }, 3)
+		quiet.Settle(func() bool { return len(done) > 0 }, 20)
 		r.Eval(true)
 		r.Count("ring_sweep_selections/"+policy, 1)
 		h := History{"o0", "o1", fmt.Sprintf("sweep:%d selections, last xid %s", i+1, x)}
